@@ -215,6 +215,51 @@ def validate(run, module, cfg, shards, what='validate', timeout=3600, heap='3g',
         if extra_env:
             e.update(extra_env)
         res = tlc.run_tlc(module, cfg, env=e, workers=1, timeout=timeout, heap=heap)
+        # A recorded line that no action of the trace specification can consume (TLC stops there: the
+        # post-condition TraceAccepted fails) is a rejected line, not a failure of the machinery: report it
+        # as such and validate the rest of the shard, so that the remaining lines are still examined.
+        tries = 0
+        while (not res['ok'] and 'TraceAccepted' in res['out'] and 'is false' in res['out'] and tries < 5):
+            tries += 1
+            lines = [l for l in open(path) if l.strip()]
+            recs = [l for l in open(vf)] if os.path.exists(vf) else []
+            k = len(recs)
+            if k >= len(lines):
+                break
+            try:
+                cid = json.loads(lines[k]).get('cid', '?')
+            except Exception:
+                cid = '?'
+            stuck = {'cid': cid, 'n': 1, 'ok': 0, 'other': [
+                {'vi': 0, 'codec': '', 'ne': False, 'check': 'ANY', 'verdict': 'reject',
+                 'detail': 'the trace specification %s cannot consume this recorded line (an observation of a shape no '
+                           'action accepts) applicable:{}' % module}]}
+            rest = path + '.rest%d' % tries
+            with open(rest, 'w') as f:
+                f.writelines(lines[k + 1:])
+            done = recs + [json.dumps(stuck) + '\n']
+            if lines[k + 1:]:
+                e2 = dict(e)
+                e2['TRACE_FILE'] = rest
+                e2['VERDICT_FILE'] = rest + '.verdicts'
+                if os.path.exists(e2['VERDICT_FILE']):
+                    os.unlink(e2['VERDICT_FILE'])
+                res2 = tlc.run_tlc(module, cfg, env=e2, workers=1, timeout=timeout, heap=heap)
+                more = [l for l in open(e2['VERDICT_FILE'])] if os.path.exists(e2['VERDICT_FILE']) else []
+                done += more
+                res2['distinct'] += res['distinct']
+                res2['generated'] += res['generated']
+                res = res2
+            else:
+                res = dict(res)
+                res['ok'] = True
+            with open(vf, 'w') as f:
+                f.writelines(done)
+            if not res['ok'] and 'TraceAccepted' in res['out']:
+                # stuck again further down: make path/vf describe the consumed part and loop on the rest
+                path_lines = lines[:k + 1] + [l for l in open(rest) if l.strip()]
+                with open(path, 'w') as f:
+                    f.writelines(path_lines)
         return path, vf, res
     reports = []
     with ThreadPoolExecutor(max_workers=NPROC) as ex:
